@@ -218,7 +218,9 @@ def main():
     print(subprocess.run([sys.executable, os.path.join(here, 'rs2lean_api.py'), '--stub-on-failure', os.path.join(REPO, 'src', 'lib.rs')], stdout=subprocess.PIPE, stderr=subprocess.STDOUT, text=True).stdout.strip())  # the API layer of lib.rs -> GeneratedApi.lean (Proofs/C08d.lean)
     print(subprocess.run([sys.executable, os.path.join(here, 'rs2lean_tostr.py'), '--stub-on-failure', os.path.join(REPO, 'src', 'lib.rs')], stdout=subprocess.PIPE, stderr=subprocess.STDOUT, text=True).stdout.strip())  # to_str / escape of lib.rs -> GeneratedToStr.lean (Proofs/C17c.lean)
     print(subprocess.run([sys.executable, os.path.join(here, 'rs2lean_expand.py'), '--stub-on-failure', os.path.join(REPO, 'src', 'expand.rs')], stdout=subprocess.PIPE, stderr=subprocess.STDOUT, text=True).stdout.strip())  # Expander of expand.rs -> GeneratedExpand.lean (Proofs/C12c.lean)
+    print(subprocess.run([sys.executable, os.path.join(here, 'rs2lean_lib.py'), '--stub-on-failure', os.path.join(REPO, 'src', 'lib.rs')], stdout=subprocess.PIPE, stderr=subprocess.STDOUT, text=True).stdout.strip())  # glue of lib.rs / replacer.rs -> GeneratedLib.lean (Proofs/C16c.lean, C09b.lean)
     print(subprocess.run([sys.executable, os.path.join(here, 'rs2lean_compile.py'), '--stub-on-failure', os.path.join(REPO, 'src', 'compile.rs')], stdout=subprocess.PIPE, stderr=subprocess.STDOUT, text=True).stdout.strip())  # src/compile.rs -> GeneratedCompile.lean (Proofs/C03d.lean)
+    print(subprocess.run([sys.executable, os.path.join(here, 'rs2lean_parse.py'), '--stub-on-failure', os.path.join(REPO, 'src', 'parse.rs')], stdout=subprocess.PIPE, stderr=subprocess.STDOUT, text=True).stdout.strip())  # src/parse.rs -> GeneratedParse.lean (Proofs/C06d.lean)
 
 if __name__ == '__main__':
     main()
